@@ -199,6 +199,27 @@ def r5_unions(ctx):
         ctx.violation("C14.R5", fa.qual, loc(fa), "from_actions starts from a fresh graph", "Cascade.from_actions does not start from a fresh Graph([]): unions would accumulate in a shared object")
     else:
         ctx.ok("C14.R5", loc(fa), "from_actions starts from a fresh Graph([])")
+    # every union is de-duplicated, whatever the number of actions (one action can hold the same computation twice: a sub-expression written
+    # twice gives two node objects with one name; lowering by name needs one node per name)
+    for label, acts in (("one action", [Obj("earthkit.workflows.fluent.Action", {}, name="ACT1")]),
+                        ("two actions", [Obj("earthkit.workflows.fluent.Action", {}, name="ACT1"), Obj("earthkit.workflows.fluent.Action", {}, name="ACT2")]),
+                        ("no action", [])):
+        n = 0
+        for p in Interp(repo, max_concrete_iter=8).explore(fa, args={"actions": list(acts)}):
+            if p.exit[0] != "return":
+                continue
+            n += 1
+            rv = p.exit[1]
+            kw_ = dict(rv.kwargs) if isinstance(rv, (Obj, App)) else {}
+            arg = (rv.args[0] if rv.args else next(iter(kw_.values()), None)) if isinstance(rv, (Obj, App)) else None
+            if not (isinstance(arg, App) and arg.fname.endswith("deduplicate_nodes")):
+                ctx.violation("C14.R5", fa.qual, loc(fa), "every union is de-duplicated",
+                              f"Cascade.from_actions with {label} returns {vkey(rv)[:100]}: the graph does not go through deduplicate_nodes — one action may contain the same "
+                              f"computation twice (two node objects, one name), so the union keeps two nodes per name and lowering by name is ambiguous")
+            else:
+                ctx.ok("C14.R5", loc(fa), f"from_actions | {label}: result de-duplicated")
+        if n == 0:
+            ctx.undecided("C14.R5", loc(fa), f"from_actions with {label}: no returning path")
 
 
 RULES = [r1_ownership, r2_r3_name_digest, r4_sources, r5_unions]
@@ -287,3 +308,35 @@ def r7_wrappers_keep_name(ctx):
 
 
 RULES.append(r7_wrappers_keep_name)
+
+
+def r8_dispatchers_carry_their_name(ctx):
+    """C14.R8: the callables the `backends` module makes up on demand (`backends.exp`, `backends.log`, … — everything not spelled out on
+    `Backend`) enter node names through `Payload.name()`, i.e. through `func.__name__`.  Each of them must therefore carry the requested
+    name as its `__name__`: a dispatcher object without one falls back to the empty string, and `x.map(backends.exp)` and
+    `x.map(backends.log)` get the same node names although they compute different things."""
+    repo = ctx.repo
+    fi = repo.funcs.get("earthkit.workflows.backends.__getattr__")
+    if fi is None:
+        ctx.undecided("C14.R8", "src/earthkit/workflows/backends/__init__.py", "module-level __getattr__ of the backends package not found")
+        return
+    ctx.analysed(fi.qual)
+    n = 0
+    for p in Interp(repo, facts={}).explore(fi, args={"name": "zzz"}):
+        reg = [e for e in p.effects if e.kind == "call" and e.data.get("name", "").endswith("setattr") and len(e.data["args"]) >= 3 and e.data["args"][1] == "zzz"]
+        if not reg:
+            continue
+        n += 1
+        o = reg[0].data["args"][2]
+        named = any(e.kind == "store" and e.data.get("attr") == "__name__" and e.data.get("value") == "zzz" for e in p.effects) \
+            or (isinstance(o, Obj) and o.fields.get("__name__") == "zzz")
+        if not named:
+            ctx.violation("C14.R8", fi.qual, loc(fi), "made-up backend callables carry their name",
+                          f"backends.zzz is created as {vkey(o)[:80]} without `__name__ = 'zzz'`: Payload.name() then yields '' for every such callable, so nodes applying "
+                          f"different backend functions with the same arguments to the same inputs share one name")
+        else:
+            ctx.ok("C14.R8", loc(fi), "a backend function created on demand is given __name__ = its name")
+    ctx.floor("C14.R8.creating_paths", n, 1)
+
+
+RULES.append(r8_dispatchers_carry_their_name)
